@@ -16,6 +16,6 @@ CONSTANTS
   NZero = 0
   MaxBal = 1
   UMax = 3
-INVARIANTS TypeOK CanClose LedgerShape Conservation HeldSigsValid TagSeparation IssuedMatchesLedger TokenOnlyAfterRevocation ClosedOnUnrevoked
+INVARIANTS TypeOK CanClose LedgerShape Conservation HeldSigsValid TagSeparation IssuedMatchesLedger TokenOnlyAfterRevocation ClosedOnUnrevoked MerchantExposureBounded
 PROPERTIES RefusedIsInert ReleaseOnlyOnAccept RefusedStartInert TokenIffOpens RestoreStutters ReplayRefused FaultRefused HonestAccepted
 CHECK_DEADLOCK FALSE
